@@ -249,6 +249,11 @@ def check(recipe) -> list[Fail]:
     src_cls, route, side = recipe["src_cls"], recipe["route"], recipe["side"]
     fails: list[Fail] = []
     src, owner = build(src_cls, recipe["mol"])
+    if recipe.get("parallel") and src_cls in ("Connectivity", "Structure", "Molecule") and getattr(src, "n_bonds", 0):
+        # a second bond on an already bonded pair (a covalent bond plus an annotation bond): part of the bond sequence like any other
+        from molli.chem import Bond, BondType
+        b0 = src.bonds[recipe["parallel"] % src.n_bonds]
+        src.extend_bonds([Bond(b0.a2, b0.a1, label="par", btype=BondType.H_Donor if b0.btype != BondType.H_Donor else BondType.Aromatic, attrib={"second": [1, 2]})])
     tag = route.split(":")[0].replace("+", "_")   # root causes are keyed by route kind; classes go into the detail
     who = f"[{src_cls} -> {route}] "
     wrapped = bool(recipe.get("wrapped")) and src_cls in ("Structure", "Molecule") and src.n_atoms > 0
@@ -525,6 +530,7 @@ def strat(tier):
             "src_cls": src_cls, "mol": r, "mol2": draw(mol2), "route": draw(st.sampled_from(routes(src_cls))),
             "mut": draw(st.lists(_MUT, min_size=1, max_size=5)), "side": draw(st.sampled_from(["copy", "copy", "source"])),
             "wrapped": draw(st.sampled_from([False, False, False, True])),
+            "parallel": draw(st.sampled_from([0, 0, 1, 2, 3])),
         }
 
     return case()
